@@ -679,6 +679,10 @@ func (in *Interp) callFunction(fn *ssa.Function, args []Value, env []Value, site
 			if h, ok := intrinsics[fn.Name()]; ok {
 				return h(in, fn, args)
 			}
+			if strings.HasPrefix(fn.Name(), "vJSONClone") {
+				// what a JSON round trip of the argument yields (tag-driven structural clone)
+				return in.jsonRoundTrip(args[0], fn.Signature.Params().At(0).Type(), false, 0)
+			}
 			if strings.HasPrefix(fn.Name(), "vClone") {
 				return in.deepCopy(args[0], map[*Cell]*Cell{}, map[*MapObj]*MapObj{})
 			}
